@@ -95,7 +95,10 @@ def prefix(tokeniser: 'Tokeniser') -> IPRange:
 def path_information(tokeniser: 'Tokeniser') -> PathInfo:
     pi = tokeniser()
     if pi.isdigit():
-        return PathInfo.make_from_integer(int(pi))
+        number = int(pi)
+        if number > _SIZE_L:
+            raise ValueError(f'path-information {pi} out of range\n  Must be 0 to {_SIZE_L} or an IPv4 formatted number')
+        return PathInfo.make_from_integer(number)
     return PathInfo.make_from_ip(pi)
 
 
